@@ -378,8 +378,8 @@ def check_C11(tier, seed):
     pairs = c11_pairs(rng, q)
     enc = lambda ps: tla_set(sorted({s * 2000 + e for (s, e) in ps}))
     # literal 400-year definition on a sub-sample, derived decision on all selected pairs
-    res.add_mc(run_mc("MC_Cons", dict(Pairs=enc(rng.sample(sorted(pairs), 48)), EmitVec="FALSE", Literal="TRUE"), workers=C.NCPU, tag="C11-literal", timeout=3000))
-    res.add_mc(run_mc("MC_Cons", dict(Pairs=enc(pairs), EmitVec="TRUE", Literal="FALSE"), workers=C.NCPU, vec_out=raw, timeout=6000, xmx="12g"))
+    res.add_mc(run_mc("MC_Cons", dict(Pairs=enc(rng.sample(sorted(pairs), 48)), EmitVec="FALSE", Literal="TRUE", CheckAgree="TRUE"), workers=C.NCPU, tag="C11-literal", timeout=3000))
+    res.add_mc(run_mc("MC_Cons", dict(Pairs=enc(pairs), EmitVec="TRUE", Literal="FALSE", CheckAgree="FALSE"), workers=C.NCPU, vec_out=raw, timeout=6000, xmx="12g"))
     run_pipeline(res, binary, "vec", vec_path=raw, validate=False)
     os.remove(raw)
     run_pipeline(res, binary, "rules", gen_lines=gens.gen_c11(rng, 6000 if q else 100000), nshards=12 if q else 16)
